@@ -192,7 +192,7 @@ def register(reg):
 
     DS = "(lb_len(data) if start else 0)"
     reg.contract(
-        "werkzeug/sansio/multipart.py:MultipartDecoder._parse_data", prop=P, self_model=MD,
+        "werkzeug/sansio/multipart.py:MultipartDecoder._parse_data", prop="C01,C02", self_model=MD,
         params={"data": "bytearray", "start": "bool"},
         returns="Tuple[bytes, int, bool]",
         requires=["data == self.buffer", "implies(start, starts_lb(data))",
@@ -226,7 +226,7 @@ def register(reg):
                  params={"value": "Optional[str]"}, returns="Tuple[str, Dict[str, str]]",
                  note="value -> (main value, options); total (C07 bounded tier)")
     reg.contract(
-        "werkzeug/sansio/multipart.py:MultipartDecoder.next_event", prop="C01,C10", self_model=MD,
+        "werkzeug/sansio/multipart.py:MultipartDecoder.next_event", prop="C01,C02,C10", self_model=MD,
         requires=["I_dec(self)"],
         ghost_after={"match = self.preamble_re.search(self.buffer, self._search_position)":
                      ["if match is not None:\n    self.g_g1 = match.group(1)"]},
